@@ -671,6 +671,8 @@ iwrc _exfile_acquire_mmap(struct IWFS_EXT *f, off_t off, uint8_t **mm, size_t *s
   if (sp) {
     *sp = 0;
   }
+  // The read lock stays with the caller only when a region is handed out (see release_mmap)
+  _exfile_unlock(f);
   return IWFS_ERROR_NOT_MMAPED;
 }
 
